@@ -93,7 +93,7 @@ func profC08(t *tape.Tape) model.Profile {
 		PrefixTraps: t.Chance(1, 3), Posix: t.Sub("posix").Chance(1, 4),
 		Mods: [2]int{1, 3}, Subs: [2]int{0, 1}, Typedefs: [2]int{0, 2}, Identities: [2]int{0, 1}, Groupings: [2]int{0, 2},
 		TopNodes: [2]int{2, 5}, Augments: [2]int{0, 2}, Deviations: [2]int{1, 6}, DevMods: [2]int{1, 3}, Depth: 3,
-		Invalid:    []string{model.InvDevMissing, model.InvDevAddDefault, model.InvDevDelDefault, model.InvDevDelOther, model.InvDevMinNonList, model.InvDevDelMin, model.InvDevBadType, model.InvDevUnknownKind, model.InvDevGone, model.InvDevDoubleNS},
+		Invalid:    []string{model.InvDevMissing, model.InvDevAddDefault, model.InvDevDelDefault, model.InvDevDelOther, model.InvDevMinNonList, model.InvDevDelMin, model.InvDevBadType, model.InvDevUnknownKind, model.InvDevGone, model.InvDevDoubleNS, model.InvDevBadPrefix},
 		InvalidPct: 10, MaxInvalid: 1, OrderTraps: true, Extras: t.Chance(1, 3),
 	}
 	if t.Chance(3, 5) {
